@@ -91,9 +91,9 @@ def h_alias(E, N, run_stages):
                 v.append('poison')
             set_leaf(c1.prms, path, ['poison', n_])
         cl.append(('editing the snapshot does not leak into the global', frozen_equal(freeze(G2), fz_G2)))
-        c2 = CeiloChunk(T.frame(), prms=None)
-        cl.append(('... nor into a chunk built afterwards', frozen_equal(freeze(c2.prms), fz_G2)))
-        cl.append(('two chunks share no mutable parameter container', not [k for k in containers(c1.prms) if k in containers(c2.prms)]))
+        k2, c2 = outcome(CeiloChunk, T.frame(), prms=None)
+        cl.append(('... nor into a chunk built afterwards', k2 == 'ok' and frozen_equal(freeze(c2.prms), fz_G2)))
+        cl.append(('two chunks share no mutable parameter container', k2 == 'ok' and not [k for k in containers(c1.prms) if k in containers(c2.prms)]))
     return cl
 
 
